@@ -1083,3 +1083,162 @@ func derivesFromOwnPayload(v ssa.Value, sk ssa.Value, fPay *types.Var, d int) bo
 	}
 	return false
 }
+
+// ---------------------------------------------------------------- R-inplace-keeps-ttl
+
+const textInplaceTTL = "R-inplace-keeps-ttl: where a function computes a key's new value from the same key's previous value (APPEND, SETRANGE, SETBIT …: a change in place) and installs it in a key object it creates, the deadline it gives the new object on the paths through that computation is the previous object's deadline — a change in place keeps the TTL; only a replacement clears it"
+
+// derivesFromKeyPayload: the value is computed from the payload of some key object stored under the same key name as sk.
+func derivesFromKeyPayload(o *ownCtx, v ssa.Value, sk ssa.Value, d int) bool {
+	if d > 10 || v == nil {
+		return false
+	}
+	switch x := v.(type) {
+	case *ssa.MakeInterface:
+		return derivesFromKeyPayload(o, x.X, sk, d+1)
+	case *ssa.TypeAssert:
+		return derivesFromKeyPayload(o, x.X, sk, d+1)
+	case *ssa.Slice:
+		return derivesFromKeyPayload(o, x.X, sk, d+1)
+	case *ssa.ChangeType:
+		return derivesFromKeyPayload(o, x.X, sk, d+1)
+	case *ssa.Call:
+		if g := x.Call.StaticCallee(); g != nil && len(x.Call.Args) > 0 && len(g.Params) > 0 && o.c.InPkg(g) && o.payloadAccessor(g, 0) {
+			return sameKeyName(x.Call.Args[0], sk)
+		}
+		if b, ok := x.Call.Value.(*ssa.Builtin); ok && b.Name() == "append" {
+			for _, a := range x.Call.Args {
+				if derivesFromKeyPayload(o, a, sk, d+1) {
+					return true
+				}
+			}
+		}
+	case *ssa.UnOp:
+		if fa, ok := x.X.(*ssa.FieldAddr); ok && fieldOf(fa) == o.fPay {
+			return sameKeyName(fa.X, sk)
+		}
+	}
+	return false
+}
+
+func ruleInplaceKeepsTTL(c *Ctx) {
+	c.S.Rule("R-inplace-keeps-ttl", textInplaceTTL, 1)
+	fPay, fExp := c.Field("storeKey", "payload"), c.Field("storeKey", "expiresAt")
+	if fPay == nil || fExp == nil {
+		c.S.Undecided("R-inplace-keeps-ttl", "anchor", "-", "storeKey.payload / expiresAt not found")
+		return
+	}
+	o := &ownCtx{c: c, memo: map[string]int{}, fPay: fPay, seen: map[ssa.Value]bool{}}
+	oldDeadline := func(v ssa.Value, sk ssa.Value) bool {
+		v = stripValue(v)
+		if u, ok := v.(*ssa.UnOp); ok {
+			if fa, ok := u.X.(*ssa.FieldAddr); ok && fieldOf(fa) == fExp {
+				return sameKeyName(fa.X, sk)
+			}
+		}
+		return false
+	}
+	n := 0
+	for _, fn := range c.SrcFuncs() {
+		if loaderExempt(fn) {
+			continue
+		}
+		k := 0
+		for _, in := range instrsOf(fn) {
+			st, ok := isStoreTo(in, fPay)
+			if !ok {
+				continue
+			}
+			sk := st.Addr.(*ssa.FieldAddr).X
+			if !freshKeyObject(sk) || keyNameArg(sk) == nil {
+				continue
+			}
+			// the leaves of the stored value that are computed from the same key's previous payload
+			var inPlace []ssa.Value
+			for _, leaf := range phiLeaves(stripValue(st.Val), map[ssa.Value]bool{}) {
+				if derivesFromKeyPayload(o, leaf, sk, 0) {
+					inPlace = append(inPlace, leaf)
+				}
+			}
+			if len(inPlace) == 0 {
+				continue
+			}
+			// the deadline stored into the same new object
+			var exp *ssa.Store
+			for _, in2 := range instrsOf(fn) {
+				if st2, ok := isStoreTo(in2, fExp); ok && sameBase(st2.Addr.(*ssa.FieldAddr).X, sk) {
+					exp = st2
+				}
+			}
+			for _, leaf := range inPlace {
+				li, ok := leaf.(ssa.Instruction)
+				if !ok || li.Block() == nil {
+					continue
+				}
+				k++
+				n++
+				key := fmt.Sprintf("%s:in-place#%d", fnName(fn), k)
+				if exp == nil {
+					c.S.Bad("R-inplace-keeps-ttl", key, c.Pos(st.Pos()), fmt.Sprintf("%s installs a value computed from the key's previous value in a new key object and never gives that object the previous deadline", fnName(fn)))
+					continue
+				}
+				BL := li.Block()
+				after := reachableFrom(BL, nil)
+				// values the deadline can have on paths through BL
+				var leaves []ssa.Value
+				seen := map[ssa.Value]bool{}
+				var collect func(v ssa.Value)
+				collect = func(v ssa.Value) {
+					if seen[v] {
+						return
+					}
+					seen[v] = true
+					phi, ok := v.(*ssa.Phi)
+					if !ok {
+						leaves = append(leaves, v)
+						return
+					}
+					if !after[phi.Block()] || phi.Block() == BL {
+						// merged before the computation: any of its values may be current there
+						for _, l := range phiLeaves(phi, map[ssa.Value]bool{}) {
+							leaves = append(leaves, l)
+						}
+						return
+					}
+					for i, e := range phi.Edges {
+						p := phi.Block().Preds[i]
+						if p == BL || after[p] {
+							collect(e)
+						}
+					}
+				}
+				collect(stripValue(exp.Val))
+				bad := ""
+				for _, l := range leaves {
+					if !oldDeadline(l, sk) {
+						bad = l.Name()
+						if cst, ok := l.(*ssa.Const); ok {
+							bad = cst.String()
+						}
+						if p, ok := l.(*ssa.Parameter); ok {
+							bad = "parameter " + p.Name()
+						}
+						if g, ok := stripValue(l).(*ssa.UnOp); ok {
+							if gl, ok := g.X.(*ssa.Global); ok {
+								bad = "global " + gl.Name()
+							}
+						}
+					}
+				}
+				if bad == "" {
+					c.S.OK("R-inplace-keeps-ttl", key, c.Pos(st.Pos()), "the new object gets the previous object's deadline on the paths that change the value in place")
+				} else {
+					c.S.Bad("R-inplace-keeps-ttl", key, c.Pos(exp.Pos()), fmt.Sprintf("%s computes the new value from the key's previous value (%s) but the new key object can get a deadline that is not the previous one (%s): the change in place drops (or replaces) the key's TTL", fnName(fn), c.Pos(c.InstrPos(li)), bad))
+				}
+			}
+		}
+	}
+	if n == 0 {
+		c.S.Trivial("R-inplace-keeps-ttl", "none", "-", "no function installs a value computed from the same key's previous value in a new key object")
+	}
+}
